@@ -7,19 +7,43 @@
      insert_line st ds k c'    a new line with content c' at column 0 is inserted in front of line k
    and sites are top-level items: site_line st ds j is the physical line of the first statement line of item j (after its comment).
 
-   FULL STATEMENT (kept visible; proved below only for the sites named in each theorem, hence `_partial`):
-     for every operator k of the catalogue of harness/checks/c04.py (width-24/7/128, type-name-lower-case, type-name-all-caps,
-     member-name-capitalised, const-name-lower-case, member-/type-name-too-short, unknown-keyword/-function/-attribute/-transform/
-     -condition-operator, deleted-operand/-parenthesis/-comma, deleted-final-line-end, two-statements-on-one-line,
-     member-outside-declaration, struct-without-members, attribute-with-extra-argument/-without-arguments, trailing-text),
-     every wf_doc ds, style st and applicable site:
+   FULL STATEMENT (kept visible):
+     for every operator k of the catalogue of harness/checks/c04.py, every wf_doc ds, style st and applicable site:
        exists pos, parse (corrupt_k site (render st ds)) = Error pos /\ e_line pos = expected_line k site.
-   Proved here: width, case class, unknown attribute, member outside a declaration -- at the first statement line of any top-level
-   item (any position in the document, any style), via one generic theorem (`replaced_statement_rejected`: ANY content the top-level
-   parser rejects, at that site, is rejected with that line and the column of the offending token).  Not proved (differential runs
-   only): sites inside struct / enum bodies, deleted-final-line-end, struct-without-members and the remaining operators. *)
+
+   WHAT IS PROVED (all Qed, closed under the global context; every theorem is for every style: LF / CR LF, any indentation,
+   decimal / hexadecimal numerals, blank lines):
+   * parse_error_propagates, no_prefix_success, parse_one_verdict.
+   * Two generic theorems from which the operator theorems are instances:
+       statement_line_replaced_if   ANY statement line of the rendered document (top level, struct body, enum body; k = its
+                                    0-based physical line) replaced by a content that the automaton rejects in every state in
+                                    which the original line is accepted: rejected, error line k + 1.  (The automaton reaches
+                                    the line in the same state as in the good run, which exists because the document parses.)
+       replaced_statement_rejected_if  the first statement line of a top-level item replaced by a content the top-level parser
+                                    rejects: rejected with that line AND the column of the offending token.
+   * Operators, complete for all their sites:
+       corrupt_rejected_attribute                unknown attribute `@Q...` in place of ANY statement line (hence of every
+                                                 attribute line of declarations, members and enums)
+       corrupt_rejected_type_name_lower_case     type name in lower case on ANY `using` / `enum` / `[modifier] struct` line
+       corrupt_rejected_struct_without_members   the member lines (and the blank lines after them) of ANY struct deleted;
+                                                 error line = the next statement / comment line, or the header line at the end
+       corrupt_rejected_member_outside_partial   (unchanged) a member line at column 0 in front of any top-level item: complete
+                                                 for the operator `member-outside-declaration` restricted to item boundaries
+   * Operators with a named gap (`_partial`):
+       corrupt_rejected_final_line_end_partial   the text with all trailing CR / LF removed (a function on texts:
+                                                 delete_final_line_end = rstrip "\r\n"); GAP: documents whose last item is a free comment
+       corrupt_rejected_width_partial            width 24 / 7 / 128 on alias lines (with the column)
+       corrupt_rejected_width_member_partial     width 24 / 7 / 128 on ANY member line `name = [u]intW`;
+                                                 GAP of the width operator: `enum Name : [u]intW` header lines and members named `__value__`
+       corrupt_rejected_case_partial             (alias lines, with the column; superseded for the line by the complete theorem above)
+       corrupt_rejected_attribute_partial        (first-statement sites, with the column)
+       corrupt_rejected_type_name_suffix_partial a character outside [A-Za-z0-9] (not blank, not `=`) and more text appended to the
+                                                 type name of an alias; GAP: `enum` / `struct` lines
+   * Not proved (differential runs only): the remaining operators of the catalogue (member / constant name classes, too-short
+     names, unknown keyword / function / transform / condition operator, deleted operand / parenthesis / comma,
+     two statements on one line, attribute arity, trailing text, indented top-level lines, over-indented members). *)
 From Coq Require Import Lia ZifyBool.
-From Symv Require Import Base.Bytes Cats.Ast Cats.Syntax Cats.SyntaxLexProofs Cats.SyntaxProofs.
+From Symv Require Import Base.Bytes Cats.Ast Cats.Syntax Cats.SyntaxLexProofs Cats.SyntaxProofs Cats.SyntaxRejectProofs.
 Open Scope Z_scope.
 
 Lemma terminals_ok : terms_ok T_now = true.
@@ -147,6 +171,137 @@ Proof.
   - cbn [e_line e_col]. split; [reflexivity|]. unfold len. lia.
 Qed.
 Print Assumptions corrupt_rejected_member_outside_partial.
+
+(* ------------------------------------------------------------------------------------------------------------------ *)
+(* any statement line *)
+
+(* the generic theorem: statement line k (0-based physical line of the rendered document, anywhere: top level, struct body,
+   enum body) replaced by a content that is rejected in every state of the automaton in which the original line is accepted *)
+Theorem statement_line_replaced_if : forall st ds k ind c c',
+  comment_merged T_now = false -> (st_crlf st = true -> in_set (comment_strip T_now) 13 = true) ->
+  wf_style st = true -> wf_doc ds = true ->
+  nth_error (tlines T_now st ds) k = Some (PStmt ind c) -> pline_ok (PStmt ind c') = true ->
+  (forall S ac u, on_stmt T_now S ac c = SOk u -> exists n, on_stmt T_now S ac c' = SErr (DStmt n)) ->
+  exists pos, parse (replace_line st ds k c') = Error pos /\ e_line pos = 1 + Z.of_nat k.
+Proof. intros st ds k ind c c' Hm. exact (SyntaxRejectProofs.statement_line_replaced T_now terminals_ok Hm st ds k ind c c'). Qed.
+Print Assumptions statement_line_replaced_if.
+
+(* [core] unknown attribute, complete: `@Q...` in place of ANY statement line of the document *)
+Theorem corrupt_rejected_attribute : forall st ds k ind c r,
+  wf_style st = true -> wf_doc ds = true -> nth_error (tlines T_now st ds) k = Some (PStmt ind c) -> plainc r = true ->
+  exists pos, parse (replace_line st ds k (64 :: 81 :: r)) = Error pos /\ e_line pos = 1 + Z.of_nat k.
+Proof.
+  intros st ds k ind c r Hst Hwf Hn Hr.
+  assert (Hind : ws_only ind = true).
+  { destruct (SyntaxProofs.wf_doc_items T_now ds Hwf) as [Hitems _]. pose proof (SyntaxProofs.tlines_ok T_now terminals_ok st ds Hst Hitems) as Hall.
+    rewrite forallb_forall in Hall. specialize (Hall _ (nth_error_In _ _ Hn)). cbn [pline_ok] in Hall.
+    apply andb_true_iff in Hall as [Hall _]. apply andb_true_iff in Hall as [Hall _]. exact Hall. }
+  apply (statement_line_replaced_if st ds k ind c (64 :: 81 :: r) eq_refl (cr_fact st) Hst Hwf Hn).
+  - cbn [pline_ok head_stmt]. rewrite Hind. cbn [plainc forallb] in *. unfold plainc in Hr. rewrite Hr. reflexivity.
+  - intros S ac u _. apply (SyntaxRejectProofs.unknown_attribute_rejected_everywhere T_now terminals_ok eq_refl r).
+Qed.
+Print Assumptions corrupt_rejected_attribute.
+
+(* [core] unsupported width on ANY member line `name = [u]intW` (struct bodies; any position) *)
+Theorem corrupt_rejected_width_member_partial : forall st ds k ind n i w,
+  In w [[50; 52]; [55]; [49; 50; 56]] ->
+  wf_style st = true -> wf_doc ds = true -> wf_prop T_now n = true ->
+  nth_error (tlines T_now st ds) k = Some (PStmt ind (of_string n ++ [32; 61; 32] ++ r_int T_now i)) ->
+  exists pos, parse (replace_line st ds k (of_string n ++ [32; 61; 32] ++ int_prefix T_now i ++ w)) = Error pos
+    /\ e_line pos = 1 + Z.of_nat k.
+Proof.
+  intros st ds k ind n i w Hw Hst Hwf Hn Hnth.
+  assert (Hind : ws_only ind = true).
+  { destruct (SyntaxProofs.wf_doc_items T_now ds Hwf) as [Hitems _]. pose proof (SyntaxProofs.tlines_ok T_now terminals_ok st ds Hst Hitems) as Hall.
+    rewrite forallb_forall in Hall. specialize (Hall _ (nth_error_In _ _ Hnth)). cbn [pline_ok] in Hall.
+    apply andb_true_iff in Hall as [Hall _]. apply andb_true_iff in Hall as [Hall _]. exact Hall. }
+  assert (Hwidth : forallb (fun x => negb (is_prefix x w)) (int_widths T_now) = true /\ plainc w = true /\ no_up_quote w = true).
+  { cbn [In] in Hw. destruct Hw as [<-|[<-|[<-|[]]]]; repeat split; vm_compute; reflexivity. }
+  destruct Hwidth as [Hwd [Hpl Hnu]].
+  apply (statement_line_replaced_if st ds k ind _ _ eq_refl (cr_fact st) Hst Hwf Hnth).
+  - apply (SyntaxRejectProofs.pline_ok_width_member T_now terminals_ok w ind n i Hind Hn Hpl).
+  - intros S ac u _. apply (SyntaxRejectProofs.width_member_rejected_everywhere T_now terminals_ok eq_refl w Hwd n i Hn Hnu).
+Qed.
+Print Assumptions corrupt_rejected_width_member_partial.
+
+(* [core] wrong case class, complete for `type-name-lower-case`: the type name in lower case on ANY `using Name ...`,
+   `enum Name ...` or `[inline |abstract ]struct Name` line of the document (`rest` = what follows the name on the line) *)
+Theorem corrupt_rejected_type_name_lower_case : forall st ds k form n rest,
+  wf_style st = true -> wf_doc ds = true -> wf_type T_now n = true -> plainc rest = true ->
+  nth_error (tlines T_now st ds) k = Some (PStmt [] (type_line_head T_now form ++ [32] ++ of_string n ++ rest)) ->
+  exists pos, parse (replace_line st ds k (type_line_head T_now form ++ [32] ++ lower_name n ++ rest)) = Error pos
+    /\ e_line pos = 1 + Z.of_nat k.
+Proof.
+  intros st ds k form n rest Hst Hwf Hn Hr Hnth.
+  apply (statement_line_replaced_if st ds k [] _ _ eq_refl (cr_fact st) Hst Hwf Hnth).
+  - apply (SyntaxRejectProofs.pline_ok_lower_type T_now terminals_ok eq_refl form n rest Hn Hr).
+  - intros S ac u _. apply (SyntaxRejectProofs.lower_type_name_rejected_everywhere T_now terminals_ok eq_refl form n rest Hn).
+Qed.
+Print Assumptions corrupt_rejected_type_name_lower_case.
+
+(* ------------------------------------------------------------------------------------------------------------------ *)
+(* the final line end *)
+
+(* [core] the document with its final line end deleted (all trailing CR / LF characters removed) is rejected at the end of the
+   text; the error line is that of the last statement line.  GAP: documents whose last item is a free comment. *)
+Theorem corrupt_rejected_final_line_end_partial : forall st ds0 it,
+  wf_style st = true -> wf_doc (ds0 ++ [it]) = true -> (forall c, it <> IComment c) ->
+  exists tl0 ind c n, tlines T_now st (ds0 ++ [it]) = tl0 ++ PStmt ind c :: blanks n
+    /\ parse (delete_final_line_end (render st (ds0 ++ [it])))
+       = Error {| e_line := 1 + Z.of_nat (length tl0); e_col := 0; e_kind := EEnd |}.
+Proof.
+  intros st ds0 it Hst Hwf Hnc.
+  exact (SyntaxRejectProofs.final_line_end_rejected T_now terminals_ok st ds0 it eq_refl (cr_fact st) Hst Hwf Hnc).
+Qed.
+Print Assumptions corrupt_rejected_final_line_end_partial.
+
+(* ------------------------------------------------------------------------------------------------------------------ *)
+(* a struct without members *)
+
+(* the rendered document without the member lines of the struct at position |pre| (and without the blank lines after them) *)
+Definition struct_body_deleted (st : style) (pre : list item) (s : struct) (post : list item) : list Z :=
+  text_of (style_cr st)
+    (delete_lines (length (tlines T_now st pre ++ struct_head_lines T_now st s) + 1) (length (struct_body_lines T_now st s))
+       (tlines T_now st (pre ++ IDecl (DStruct s) :: post))).
+
+(* [core] complete for `struct-without-members`: for ANY struct of the document the text without its member lines is rejected;
+   the error line is the line that follows the header (the next statement or comment), or the header line when nothing follows *)
+Theorem corrupt_rejected_struct_without_members : forall st pre s post,
+  wf_style st = true -> wf_doc (pre ++ IDecl (DStruct s) :: post) = true ->
+  exists pos, parse (struct_body_deleted st pre s post) = Error pos
+    /\ e_line pos = 1 + Z.of_nat (length (tlines T_now st pre ++ struct_head_lines T_now st s)) + match post with [] => 0 | _ => 1 end.
+Proof.
+  intros st pre s post Hst Hwf. unfold struct_body_deleted.
+  rewrite (SyntaxRejectProofs.tlines_struct T_now st pre s post), (SyntaxRejectProofs.delete_lines_at T_now terminals_ok eq_refl).
+  assert (Hcr : cr_ok T_now (style_cr st)).
+  { unfold cr_ok, style_cr. destruct (st_crlf st); [right; split; reflexivity|left; reflexivity]. }
+  destruct (SyntaxRejectProofs.struct_without_members_rejected T_now terminals_ok eq_refl st Hst Hcr pre s post Hwf) as [pos [E HL]].
+  exists pos. unfold struct_head_lines. split; [exact E|exact HL].
+Qed.
+Print Assumptions corrupt_rejected_struct_without_members.
+
+(* ------------------------------------------------------------------------------------------------------------------ *)
+(* a type name followed by a character outside its class *)
+
+(* [core] `using Name<ch>... = ...` where ch is not a letter or digit (e.g. `_`, `^`, `[`, `-`, `.`), not a blank and not `=`:
+   the name token ends before ch and `=` is expected there; error at the column of ch.  GAP: `enum` / `struct` lines. *)
+Theorem corrupt_rejected_type_name_suffix_partial : forall st ds j n l c ch tail,
+  wf_style st = true -> wf_doc ds = true -> nth_error ds j = Some (IDecl (DAlias n l c)) ->
+  type_rest ch = false -> is_ws ch = false -> ch <> 61 -> plainc (ch :: tail) = true ->
+  exists pos, parse (replace_line st ds (site_line T_now st ds j) (kw_using T_now ++ [32] ++ of_string n ++ ch :: tail)) = Error pos
+    /\ e_line pos = 1 + Z.of_nat (site_line T_now st ds j) /\ e_col pos = 2 + len (kw_using T_now) + len (of_string n).
+Proof.
+  intros st ds j n l c ch tail Hst Hwf Hn Hch Hws H61 Hp.
+  destruct (SyntaxProofs.wf_doc_items T_now ds Hwf) as [Hitems _]. pose proof (SyntaxProofs.wf_nth T_now j ds _ Hitems Hn) as Hit.
+  cbn [wf_item wf_decl] in Hit. apply andb_true_iff in Hit as [Hit _]. apply andb_true_iff in Hit as [Htype _].
+  eexists. split.
+  - apply (replaced_statement_rejected_if st ds j _ _ (ch :: tail) eq_refl (cr_fact st) Hst Hwf Hn).
+    + intros c0 H. discriminate.
+    + apply (SyntaxRejectProofs.pline_ok_name_suffix T_now terminals_ok n ch tail Htype Hp).
+    + intro ac. apply (SyntaxRejectProofs.alias_name_suffix T_now terminals_ok eq_refl ac n ch tail Htype Hch Hws H61).
+  - cbn [e_line e_col]. split; [reflexivity|]. unfold len. rewrite !app_length. cbn [length]. lia.
+Qed.
+Print Assumptions corrupt_rejected_type_name_suffix_partial.
 
 (* non-vacuity *)
 Example rejected_example :
